@@ -110,6 +110,7 @@ def main(argv=None):
     counters, nt, samples, violations, inconcl, other, other_first = {}, set(), [], [], [], {}, {}
     evaluations = states = transitions = 0
     exhaustive = None
+    n_exh = 0
     extra = {}
     reach = {}
     for o in outs:
@@ -131,11 +132,16 @@ def main(argv=None):
             other[k] = other.get(k, 0) + v
         for k, v in o.get("other_first", {}).items():
             other_first.setdefault(k, v)
-        if o.get("exhaustive") is not None:
-            exhaustive = o["exhaustive"] if exhaustive is None else (exhaustive and o["exhaustive"])
+        if o.get("exhaustive"):
+            n_exh += 1
         for k, v in o.get("extra", {}).items():
             extra.setdefault(k, v)
 
+    # 'exhaustive' is claimed for the run as a whole only if EVERY shard enumerated its finite space completely;
+    # otherwise the completely enumerated sub-spaces are listed by the engines' own descriptions (extra keys)
+    if n_exh:
+        exhaustive = n_exh == len(outs)
+        extra["shards_enumerating_a_finite_subspace_completely"] = n_exh
     # reach: which functions of the property's anchor files were entered by this run
     anchors = []
     try:
